@@ -166,7 +166,8 @@ double Integrate(std::function<double(double)> func, double a, double b, const s
 	else
 		Check_Integration_Limits(a, b, sign);
 	if(method == "Trapezoidal")
-		return sign * trapezoidal(func, a, b);
+		// boost's default of 12 refinements (4096 panels) is reached before the tolerance for integrands that vary by a few orders of magnitude over the interval
+		return sign * trapezoidal(func, a, b, boost::math::tools::root_epsilon<double>(), 20);
 	else if(method == "Gauss-Legendre")
 		return sign * gauss<double, 30>::integrate(func, a, b);
 	else if(method == "Gauss-Kronrod")
